@@ -24,6 +24,7 @@ ANCHORS = {"weaver.py": [(65, 66), (112, 114), (311, 314), (356, 359), (413, 419
            "sorted_array_utils.py": [(311, 315), (543, 549)], "process.py": [(80, 87), (359, 360)],
            "match.py": [(92, 97), (125, 126)], "rfa.py": [(54, 55)], "datasets/_base.py": [(61, 64)]}
 FORMS_HARNESSES = "all"
+FORMS_SKIP = ("deep-narrow-histories",)
 FORMS_WIDTH = {"in-every-state": 5, "in-large-states": 4, "function-level": 9, "function-level-long-series": 9}
 EXPLANATION = "every invalid class fired in every state of a bounded exhaustive exploration"
 
@@ -313,6 +314,35 @@ def harnesses(tier, seed):
             done.append(op)
             node(op)
 
+    DEEP_OPS = [("observe", "slice_by_value"), ("truncate_by_index", 0, -1), ("truncate_by_index", 1, None), ("append", False),
+                ("repeat", 2), ("shift_x", 1.0), ("normalize_y", 0.0, 10.0), ("smooth", 0.5), ("restore_original",),
+                ("recreate", "linfix", 2), ("observe", "to_function")]
+    deep_depth = 4 if quick else 5
+
+    def deep_body(ctx):
+        """one operation per kind (observers included: they may build hidden state), deeper: the invalid requests are
+        fired in every state at depth >= 3 (shallower states are the subject of in-every-state)"""
+        ii = ctx.choose([1, 3], "init")
+        r = WO.Runner(WO.INITS[ii])
+        done = []
+        for d in range(deep_depth):
+            en = r.enabled(DEEP_OPS)
+            op = ctx.choose(en, "op%d" % d)
+            try:
+                r.apply(op)
+            except Exception:  # noqa  (valid-history failures are C09's subject)
+                return
+            done.append(op)
+            if len(done) >= 3 and ctx.fresh:
+                case = {"kind": "history-c20", "init": ii, "ops": [list(o) for o in done]}
+                fails = state_checks(r, op)
+                k = len(invalid_weaver_ops(r.wv))
+                ctx.case(k)
+                ctx.call(k)
+                for f in fails:
+                    ctx.fail(f["clause"], case, f.get("detail"), f.get("key"))
+                ctx.outcome(WO.observables(r.wv))
+
     lsizes = [v for v in A.sizes(34, 1100 if quick else 9000) if v >= 16]
 
     def fn_long_body(ctx):
@@ -332,7 +362,9 @@ def harnesses(tier, seed):
         judge(ctx, check_large_state, {"init": ii, "n": n, "strategy": st, "then": then}, calls=45,
               nontrivial=lambda sg: sg[0] != "skipped")
 
-    return [{"name": "function-level", "body": fn_body},
+    return [{"name": "deep-narrow-histories", "body": deep_body,
+             "bound_text": "all programs over %d operations (one per kind, observers included) to depth %d, requests fired at depth >= 3" % (len(DEEP_OPS), deep_depth)},
+            {"name": "function-level", "body": fn_body},
             {"name": "function-level-long-series", "body": fn_long_body, "bound_text": "series lengths %s" % lsizes},
             {"name": "in-large-states", "body": large_body, "bound_text": "constructor, recreate with n in {17..64, code constants+1}, one more operation"},
             {"name": "in-every-state", "body": state_body,
